@@ -119,6 +119,16 @@ func runSet(out *vfd.Out, c map[string]any) {
 		})
 		out.Emit(map[string]any{"ev": "matrix", "c": vfd.I(c["c"]), "m": m, "panic": b2i(p), "pmsg": msg})
 	}
+	// every probe's neighbour list is obtained first and HELD (the returned slices themselves, not copies) while all
+	// later calls on the same GridMapper run; each probe record re-reads its held list at the end ("held")
+	heldLists := map[int][]int{}
+	heldPanic := false
+	for _, praw := range c["probes"].([]any) {
+		a := vfd.I(praw.(map[string]any)["a"])
+		p, _ := vfd.Guard(func() { heldLists[a] = g.NeighborIndicesInEpoch(a) })
+		heldPanic = heldPanic || p
+	}
+	recs := []map[string]any{}
 	for _, praw := range c["probes"].([]any) {
 		pm := praw.(map[string]any)
 		a := vfd.I(pm["a"])
@@ -162,6 +172,17 @@ func runSet(out *vfd.Out, c map[string]any) {
 		}
 		rec["isn"], rec["idx"], rec["hasx"], rec["all"], rec["key"] = isn, idx, hasx, all, key
 		rec["panic"], rec["pmsg"] = b2i(p), msg
+		recs = append(recs, rec)
+	}
+	for _, rec := range recs {
+		held := []int{}
+		for _, i := range heldLists[rec["a"].(int)] {
+			held = append(held, i)
+		}
+		rec["held"] = held
+		if heldPanic {
+			rec["panic"] = 1
+		}
 		out.Emit(rec)
 	}
 }
